@@ -29,6 +29,7 @@ State = T.Dict[str, Status]
 STORE = '_container'
 QUEUES = ('pre', 'post')
 FLUSH = 'flush_pre_post'
+DESIGN_READERS = ('__iadd__', '__len__')   # by design they look at _container, pre and post together without flushing
 QUEUE_MUTATORS = {'append', 'appendleft', 'extend', 'extendleft', 'insert', 'add', 'update', '__iadd__'}
 EMPTY_CTORS = {'collections.deque', 'deque', 'list', 'tuple', 'set', 'dict'}
 
@@ -99,6 +100,7 @@ class Family:
         self._resolved: T.Dict[T.Tuple[str, str], T.Optional[str]] = {}
         self._static: T.Dict[T.Tuple[int, T.Optional[str]], T.Any] = {}
         self.rounds = 0
+        self.roles: T.Dict[str, str] = {'__init__': 'init', FLUSH: 'flush', **{n: 'design' for n in DESIGN_READERS}}
 
     def mro(self, cls_key: str) -> T.List[T.Tuple[Module, ast.ClassDef]]:
         # (Repo.mro re-parses the import table on every call: memoised here)
@@ -120,6 +122,56 @@ class Family:
                         res = self.cls_key(m, c)
             self._resolved[k] = res
         return self._resolved[k]
+
+    def compute_roles(self, texts: T.Dict[str, str]) -> None:
+        """Role of a method w.r.t. the lazy stores of `self`: 'init' (constructor), 'flush' (the flush itself),
+        'design' (by-design reader of all three stores).  The three roots are given; a *private helper* inherits the
+        role when every call of it in the package is `self.helper(...)` from methods that all have that same role
+        (call graph, not names): such a helper is a piece of the root that was extracted."""
+        import re as _re
+        roles: T.Dict[str, str] = {'__init__': 'init', FLUSH: 'flush'}
+        roles.update({n: 'design' for n in DESIGN_READERS})
+        defs: T.Dict[str, T.List[FuncNode]] = {}
+        calls: T.Dict[str, T.List[T.Tuple[str, bool]]] = {}     # callee name -> [(caller method, receiver is self)]
+        fam_files = {m.rel for m, _ in self.members}
+        for m, c in self.members:
+            for st in c.body:
+                if not isinstance(st, (ast.FunctionDef, ast.AsyncFunctionDef)):
+                    continue
+                defs.setdefault(st.name, []).append(st)
+                for n in ast.walk(st):
+                    if isinstance(n, ast.Call) and isinstance(n.func, ast.Attribute):
+                        calls.setdefault(n.func.attr, []).append((st.name, attr_chain(n.func.value) == 'self'))
+                    elif isinstance(n, ast.Attribute) and isinstance(n.ctx, ast.Load) and n.attr in defs and False:
+                        pass
+        # any mention of the helper outside the family classes (other modules, module level code) forbids inheritance
+        mentions: T.Dict[str, int] = {}
+        private = [n for n in defs if n.startswith('_') and not (n.startswith('__') and n.endswith('__'))]
+        for name in private:
+            pat = _re.compile(r'\b' + _re.escape(name) + r'\b')
+            total = sum(len(pat.findall(src)) for src in texts.values())
+            inside = 0
+            for m, c in self.members:
+                seg = ast.get_source_segment(m.src, c) or ''
+                inside += len(pat.findall(seg))
+            mentions[name] = total - inside
+        del fam_files
+        for _ in range(4):
+            changed = False
+            for name in private:
+                if name in roles or mentions.get(name, 1) != 0:
+                    continue
+                sites = calls.get(name, [])
+                # every mention inside the classes must be one of the recorded `self.name(...)` calls or the def itself
+                if not sites or not all(is_self for _, is_self in sites):
+                    continue
+                rs = {roles.get(caller) for caller, _ in sites}
+                if len(rs) == 1 and None not in rs:
+                    roles[name] = next(iter(rs))  # type: ignore[assignment]
+                    changed = True
+            if not changed:
+                break
+        self.roles = roles
 
     def cfg(self, fn: FuncNode) -> CFG:
         c = self._cfg.get(id(fn))
@@ -252,10 +304,9 @@ class Analysis:
             fam._static[key] = (self._pairs, self._tracked(), self._may_alias(), self._handles())
         self._pairs, self.tracked, self.alias, self.handles = fam._static[key]
         self.exempt_self = ''
-        if self.is_method and fn.name == '__init__':
-            self.exempt_self = 'init'
-        elif self.is_method and fn.name == FLUSH:
-            self.exempt_self = 'flush'
+        self.role = fam.roles.get(fn.name, '') if self.is_method else ''
+        if self.role in ('init', 'flush'):
+            self.exempt_self = self.role
 
     # -- which receivers are lazy lists in this function -------------------------
     def _tracked(self) -> T.Set[str]:
